@@ -184,6 +184,12 @@ def run(ctx):
         pts, fam = curve(rng, n)
         ks = sorted(rng.sample(range(n), rng.randrange(0, min(n, 14) + 1)))
         one(ctx, pts, ks, pick_t(rng, pts, ks), fam)
+    for _ in range(3 if quick else 40):
+        # LONG curves with hundreds of knees (beyond 1024 / 4096 points): chunked, strided or capped processing shows at a chunk boundary
+        n = rng.choice([rng.randrange(1100, 2000), rng.randrange(4097, 5000)])
+        pts, fam = curve(rng, n)
+        ks = sorted(rng.sample(range(n), rng.randrange(150, 600)))
+        one(ctx, pts, ks, pick_t(rng, pts, ks[:40]), 'long-' + fam, False)
 
 
 def replay(ctx, body):
